@@ -452,6 +452,59 @@ func runLogCase(w *World, p *prepared) *caseOutcome {
 	case xl > 0:
 		cls = "extra-lines"
 	}
+	if strings.HasPrefix(why, "unattributed:") {
+		// describe WHICH entries are wrong instead of the query's constructs: stable across seeds and queries
+		set := map[string]bool{}
+		reID := regexp.MustCompile(`#(\d+)#`)
+		classify := func(line, dir string) {
+			m := reID.FindStringSubmatch(line)
+			if m == nil {
+				set[dir+":unknown-line"] = true
+				return
+			}
+			var id int
+			fmt.Sscan(m[1], &id)
+			if id < 1 || id > len(c.DB) {
+				set[dir+":unknown-line"] = true
+				return
+			}
+			e := c.DB[id-1]
+			pos := "inside"
+			switch {
+			case e.T < c.Q.From:
+				pos = "before-start"
+			case e.T == c.Q.From:
+				pos = "at-start"
+			case e.T >= c.Q.To:
+				pos = "at-or-after-end"
+			case e.T == c.Q.To-1:
+				pos = "last-instant"
+			}
+			set[dir+":"+e.Ty+":"+pos] = true
+		}
+		for x, n := range el {
+			if gl[x] < n {
+				classify(x.line, "missing")
+			}
+		}
+		for x, n := range gl {
+			if el[x] < n {
+				classify(x.line, "unexpected")
+			}
+		}
+		var ks []string
+		for s := range set {
+			ks = append(ks, s)
+		}
+		sort.Strings(ks)
+		why = "unattributed"
+		if c.Q.Lim > 0 && c.Q.Lim < 1000 {
+			why += "|limit"
+		}
+		if len(ks) > 0 {
+			why += "|" + strings.Join(ks, ",")
+		}
+	}
 	out.sig = why + "|" + cls
 	out.msg = fmt.Sprintf("%s: expected %d lines, got %d (%d missing, %d unexpected)", req.Query, len(expList), total(got), missing, extra)
 	if missing > 0 {
